@@ -85,3 +85,68 @@ func verifH_C16_external_callbacks() {
 	verifAssert(string(bj) == string(aj), "C16 callbacks: after internalising, serialising and reloading everything reached through the callback dereferences to the same content as before")
 	verifReach("end")
 }
+
+//verif:harness id=C16 tier=quick,thorough witness=end bounds="spellings and names that coincide: (a) two external files in different directories (cats/cat.json, dogs/dog.json) that each say ./common.json#/components/schemas/Id and thereby mean different files with different content; (b) a root /r/api/doc.json referring to a file of the same base name in another directory (v1/doc.json#/components/schemas/Item) while the root has a different Item of its own; (c) both at once: after internalising, serialising and reloading with external references disallowed every schema of the operation dereferences to the same content as before (distinct targets are not merged)"
+func verifH_C16_coinciding_spellings() {
+	verifMapOrder()
+	layout := verifChoose("layout", 3)
+	files := map[string]string{
+		"/r/api/cats/cat.json":    `{"components":{"schemas":{"Cat":{"type":"object","properties":{"id":{"$ref":"./common.json#/components/schemas/Id"}}}}}}`,
+		"/r/api/cats/common.json": `{"components":{"schemas":{"Id":{"type":"string","minLength":3}}}}`,
+		"/r/api/dogs/dog.json":    `{"components":{"schemas":{"Dog":{"type":"object","properties":{"id":{"$ref":"./common.json#/components/schemas/Id"}}}}}}`,
+		"/r/api/dogs/common.json": `{"components":{"schemas":{"Id":{"type":"integer","minimum":7}}}}`,
+		"/r/api/v1/doc.json":      `{"components":{"schemas":{"Item":{"type":"string","maxLength":5}}}}`,
+	}
+	props := ""
+	if layout != 1 {
+		props = `"cat":{"$ref":"cats/cat.json#/components/schemas/Cat"},"dog":{"$ref":"dogs/dog.json#/components/schemas/Dog"}`
+	}
+	if layout != 0 {
+		if props != "" {
+			props += ","
+		}
+		props += `"item":{"$ref":"v1/doc.json#/components/schemas/Item"},"own":{"$ref":"#/components/schemas/Item"}`
+	}
+	rootText := `{"openapi":"3.0.0","info":{"title":"t","version":"1"},"paths":{"/a":{"post":{"operationId":"op","requestBody":{"content":{"application/json":{"schema":{"type":"object","properties":{` + props + `}}}}},"responses":{"200":{"description":"d"}}}}},` +
+		`"components":{"schemas":{"Item":{"type":"boolean"}}}}`
+	rootLoc := &url.URL{Path: "/r/api/doc.json"}
+	loader := NewLoader()
+	loader.IsExternalRefsAllowed = true
+	loader.ReadFromURIFunc = func(l *Loader, u *url.URL) ([]byte, error) {
+		if u.Path == rootLoc.Path {
+			return []byte(rootText), nil
+		}
+		if t, ok := files[u.Path]; ok {
+			return []byte(t), nil
+		}
+		return nil, errors.New("no such file")
+	}
+	doc, err := loader.LoadFromDataWithPath([]byte(rootText), rootLoc)
+	verifAssert(err == nil && doc != nil, "C16 coinciding spellings: the multi-file document loads")
+	if err != nil || doc == nil {
+		return
+	}
+	probe := func(d *T) any {
+		mt := d.Paths.Value("/a").Post.RequestBody.Value.Content["application/json"]
+		return verifDerefSchema(mt.Schema, 0)
+	}
+	before := probe(doc)
+	doc.InternalizeRefs(context.Background(), nil)
+	b, merr := json.Marshal(doc)
+	verifAssert(merr == nil, "C16 coinciding spellings: the internalised document serialises")
+	if merr != nil {
+		return
+	}
+	l2 := NewLoader()
+	l2.ReadFromURIFunc = func(*Loader, *url.URL) ([]byte, error) { return nil, errors.New("no reads expected") }
+	doc2, rerr := l2.LoadFromData(b)
+	verifAssert(rerr == nil && doc2 != nil, "C16 coinciding spellings: the internalised document loads with external references disallowed")
+	if rerr != nil || doc2 == nil {
+		return
+	}
+	after := probe(doc2)
+	bj, _ := json.Marshal(before)
+	aj, _ := json.Marshal(after)
+	verifAssert(string(bj) == string(aj), "C16 coinciding spellings: after internalising, serialising and reloading every schema dereferences to the same content as before (distinct targets are not merged)")
+	verifReach("end")
+}
